@@ -6,7 +6,7 @@ from .encoders import encode_multipart
 from .wsgi import make_environ
 
 KINDS = ['ok', 'ok_json_accept', 'notfound', 'notfound_json', 'wrongverb', 'badpath', 'badchunk', 'oversized', 'badmultipart', 'badjson', 'crash', 'raised', 'gen', 'form',
-         'cookie_then_abort', 'head_ok', 'rex', 'typed', 'expires', 'longpath', 'longquery', 'status_str', 'status_int', 'signed', 'urlinfo', 'auth', 'bigform']
+         'cookie_then_abort', 'head_ok', 'rex', 'typed', 'expires', 'longpath', 'longquery', 'status_str', 'status_int', 'signed', 'urlinfo', 'auth', 'bigform', 'chunked_ok', 'header_case', 'inject_arg', 'notmodified', 'nocontent', 'blog_direct', 'dm_info']
 
 
 _DEFAULT_ERRORS = []
@@ -19,6 +19,11 @@ def _default_errors():
         import ombott
         _DEFAULT_ERRORS.extend((k, v.status_code, v.body) for k, v in ombott.DefaultConfig.errors_map.items())
     return _DEFAULT_ERRORS
+
+
+def domain_config():
+    """A configuration with virtual hosting: requests for host blog.* are served below /blog, the application name travels in an environ key."""
+    return {'domain_map': (lambda host: 'blog' if (host or '').startswith('blog.') else None), 'app_name_header': 'HTTP_X_VERIF_APP'}
 
 
 def custom_errors():
@@ -71,6 +76,7 @@ def make_app(probe=None, config=None, private_errors=False, app=None, foreign=No
     def p(where):
         if probe is not None:
             probe(app, where)
+    mirror_blog = bool(cfg.get('domain_map'))
 
     @app.route('/ok', overwrite=True)
     def ok():
@@ -176,11 +182,47 @@ def make_app(probe=None, config=None, private_errors=False, app=None, foreign=No
     def auth():
         return 'auth %r %r' % (rq.auth, rq.remote_route)
 
+    @app.route('/hcase', overwrite=True)
+    def hcase():
+        # one header touched under two letter-case spellings (names are case-sensitive keys in this framework)
+        q = rq.query.get('q', '')
+        rs.headers['X-Trace'] = 'step-1-' + q
+        p('hcase:mid')
+        rs.headers['x-trace'] = 'step-2-' + q
+        rs.headers.append('Cache-Control', 'no-cache')
+        rs.headers.append('cache-control', 'private, q' + q)
+        return 'hcase ' + q
+
+    @app.route('/inject', overwrite=True)
+    def inject(**kw):
+        # code that adds an entry to the URL arguments of its own request (a wildcard-free route)
+        q = rq.query.get('q', '')
+        rq.url_args['injected'] = q
+        return 'inject %r %r' % (sorted(rq.url_args.items()), sorted(kw.items()))
+
+    @app.route('/notmod', overwrite=True)
+    def notmod():
+        q = rq.query.get('q', '')
+        rs.status = 304 if rq.query.get('code') != '204' else 204
+        rs.headers['Content-Language'] = 'en-' + q
+        rs.headers['Last-Modified'] = 'lm-' + q
+        rs.headers['Content-Type'] = 'text/x-' + q
+        rs.headers['Etag'] = 'e' + q
+        p('notmod:end')
+        return ''
+
     @app.route('/abort', overwrite=True)
     def ab():
         rs.set_cookie('pre', 'abort' + rq.query.get('q', ''))
         rs.headers['X-Pre'] = 'set-before-abort'
         ombott.abort(403, 'no ' + rq.query.get('q', ''))
+    if mirror_blog:
+        # the virtual host serves the same routes below /blog
+        for route in list(app.router.routes.values()):
+            if route.rule.startswith('/blog'):
+                continue
+            for m, rm in route.methods.items():
+                app.route('/blog' + route.rule, method=m, callback=rm.handler, overwrite=True)
     return app
 
 
@@ -225,6 +267,23 @@ def make_env(kind, n, stream_cls=Stream):
         return _e('POST', '/json', q, stream=stream_cls(data), content_length=len(data), headers={'Content-Type': 'application/json', 'Accept': 'application/json' if n % 2 else '*/*'})
     if kind == 'crash':
         return _e('GET', '/crash', q)
+    if kind == 'chunked_ok':
+        from .encoders import encode_chunked
+        payload = (b'payload-%d-' % n) * (2 + n % 3)
+        wire, _ = encode_chunked(payload, [11 + n % 5, 17, 300], [{'upper': bool(n % 2), 'zeros': n % 3}], ['x=%d' % n, None], trailers=['X-T: %d' % n])
+        return _e('POST', '/body', q, stream=stream_cls(wire), content_length=None, headers={'Transfer-Encoding': 'chunked'})
+    if kind == 'header_case':
+        return _e('GET', '/hcase', q)
+    if kind == 'inject_arg':
+        return _e('GET', '/inject', q)
+    if kind == 'notmodified':
+        return _e('GET', '/notmod', q)
+    if kind == 'nocontent':
+        return _e('GET', '/notmod', q + '&code=204')
+    if kind == 'blog_direct':
+        return _e('GET', '/blog/info/x%d' % n, q)
+    if kind == 'dm_info':
+        return _e('GET', '/info/x%d' % n, q, headers={'Host': 'blog.example'})
     if kind == 'rex':
         return _e('GET', '/rx/a%d/x' % n, q)
     if kind == 'typed':
